@@ -183,7 +183,7 @@ func ruleSite(era Era) string {
 }
 
 // checkAPI evaluates one decoded script through NativeScript.Evaluate.
-func (r *c29Run) checkAPI(fail func(key, what string) bool, s *NS, raw []byte, ctx SCtx) {
+func (r *c29Run) checkAPI(fail func(key, what string) bool, s *NS, raw []byte, ctx SCtx, extra ...SCtx) {
 	rec := r.rec
 	var ns common.NativeScript
 	if _, err := cbor.Decode(raw, &ns); err != nil {
@@ -207,8 +207,21 @@ func (r *c29Run) checkAPI(fail func(key, what string) bool, s *NS, raw []byte, c
 			fail("C29:hash:script-ref", fmt.Sprintf("script %s bytes %x as script_ref: Hash()=%x, blake2b-224(00||original)=%x", s, raw, got[:], want[:]))
 		}
 	}
-	// the API has no notion of an absent bound: its documentation prescribes 0
-	// for "no validity start" and 2^64-1 for "no ttl"
+	// One decoded object, several contexts in a history-dependent order: the
+	// context under test, the extra contexts, then the context under test again.
+	// Every result must be the reference result for ITS context (modulo the
+	// listed deviations, which are functions of the context alone).
+	seq := append(append([]SCtx{ctx}, extra...), ctx)
+	for i, cx := range seq {
+		r.evalOn(fail, &ns, s, raw, cx, i)
+	}
+}
+
+// evalOn evaluates the (possibly already used) decoded script in one context.
+// The API has no notion of an absent bound: its documentation prescribes 0 for
+// "no validity start" and 2^64-1 for "no ttl".
+func (r *c29Run) evalOn(fail func(key, what string) bool, ns *common.NativeScript, s *NS, raw []byte, ctx SCtx, nth int) {
+	rec := r.rec
 	start, end := uint64(0), uint64(math.MaxUint64)
 	if ctx.Start != nil {
 		start = *ctx.Start
@@ -216,13 +229,29 @@ func (r *c29Run) checkAPI(fail func(key, what string) bool, s *NS, raw []byte, c
 	if ctx.End != nil {
 		end = *ctx.End
 	}
-	got := ns.Evaluate(0, start, end, libKeyHashes(ctx))
+	kh := libKeyHashes(ctx)
+	nKeys := len(kh)
+	got := ns.Evaluate(0, start, end, kh)
 	want := refEval(s, ctx, Quirks{})
 	rec.Eval()
+	if len(kh) != nKeys || len(libKeyHashes(ctx)) != nKeys {
+		fail("C29:Evaluate:mutates-key-hash-set", fmt.Sprintf("Evaluate changed the key-hash map it was given (%d -> %d entries)", nKeys, len(kh)))
+	}
+	if h, w := ns.Hash(), refScriptHash(raw); !bytes.Equal(h[:], w[:]) {
+		fail("C29:Evaluate:mutates-script", fmt.Sprintf("after %d evaluation(s) Hash()=%x, blake2b-224(00||original)=%x", nth+1, h[:], w[:]))
+	}
 	if got != want {
-		r.report(fail, "Evaluate", "NativeScript.Evaluate", fmt.Sprintf("NativeScript.Evaluate(start=%d,end=%d) of %s with %s = %v, ledger semantics = %v (script cbor %x)",
-			start, end, s, ctx, got, want, raw),
-			func(q Quirks) bool { return refEval(s, ctx, q) == got })
+		what := fmt.Sprintf("NativeScript.Evaluate(start=%d,end=%d) of %s with %s = %v, ledger semantics = %v (script cbor %x; evaluation #%d on this object)",
+			start, end, s, ctx, got, want, raw, nth+1)
+		if nth > 0 {
+			// is it the history? a freshly decoded object decides
+			var fresh common.NativeScript
+			if _, err := cbor.Decode(raw, &fresh); err == nil && fresh.Evaluate(0, start, end, libKeyHashes(ctx)) != got {
+				fail("C29:Evaluate:result-depends-on-history", what+" - a freshly decoded copy of the same script gives the other result for this context")
+				return
+			}
+		}
+		r.report(fail, "Evaluate", "NativeScript.Evaluate", what, func(q Quirks) bool { return refEval(s, ctx, q) == got })
 	}
 }
 
@@ -264,7 +293,15 @@ func (r *c29Run) checkTx(fail func(key, what string) bool, c *c29Tx) (decoded bo
 		}
 	}
 	// evaluation through the rule
-	rerr := nativeRule(c.Era)(tx, slot, st, pp)
+	names := []string{c.Era.String() + ".UtxoValidateNativeScripts", "VerifyTransaction(" + c.Era.String() + ".UtxoValidationRules)"}
+	errs := pureRun(fail, "C29", c.Era.String(), tx, names, func() []error {
+		e := []error{nativeRule(c.Era)(tx, slot, st, pp), nil}
+		if c.Payer {
+			e[1] = common.VerifyTransaction(tx, slot, st, pp, rulesFor(c.Era))
+		}
+		return e
+	})
+	rerr := errs[0]
 	got := rerr == nil
 	want := true
 	firstFail := -1
@@ -319,7 +356,7 @@ func (r *c29Run) checkTx(fail func(key, what string) bool, c *c29Tx) (decoded bo
 	}
 	// the complete rule list: acceptance must imply the reference accepts
 	if c.Payer {
-		ferr := common.VerifyTransaction(tx, slot, st, pp, rulesFor(c.Era))
+		ferr := errs[1]
 		rec.Eval()
 		if ferr == nil {
 			rec.Class("tx_full_list_accepts")
@@ -377,7 +414,7 @@ func TestC29(t *testing.T) {
 					for _, en := range states {
 						ctx := SCtx{Start: st, End: en}
 						ctx.Keys[0] = true
-						run.checkAPI(vfail, s, raw, ctx)
+						run.checkAPI(vfail, s, raw, ctx, SCtx{Keys: [scriptUniverse]bool{true, true, true, true}, Start: u64p(math.MaxUint64), End: u64p(0)})
 						gridN++
 						for _, era := range scriptEras {
 							if si > 1 && era != Allegra && era != Conway {
@@ -444,7 +481,17 @@ func TestC29(t *testing.T) {
 		nontrivial := hasTime || s.depth() >= 2
 
 		// (i) direct evaluation
-		run.checkAPI(fail, s, raw, ctx)
+		var extra []SCtx
+		for i, n := 0, rapid.IntRange(1, 3).Draw(rt, "nExtraCtx"); i < n; i++ {
+			var e SCtx
+			for k := range e.Keys {
+				e.Keys[k] = rapid.Bool().Draw(rt, "extraKey")
+			}
+			e.Start = genBound(rt, "extraStart", before)
+			e.End = genBound(rt, "extraTtl", hereafter)
+			extra = append(extra, e)
+		}
+		run.checkAPI(fail, s, raw, ctx, extra...)
 		if nontrivial {
 			rec.NonTrivial(fmt.Sprintf("api %x %s", raw, ctx), map[string]any{"entry": "Evaluate", "script": s.String(), "script_cbor": evi.Hex(raw), "context": ctx.String()})
 		}
